@@ -166,7 +166,8 @@ func HarnessC07Request() {
 	enc, timeout := "", ""
 	var body []byte
 	if hostileHeaders {
-		enc = []string{"", "identity", "gzip", "zz"}[nondetChoice("encoding", 4)]
+		// ("Gzip": a registered name in another letter case is a different, unknown name)
+		enc = []string{"", "identity", "gzip", "zz", "Gzip"}[nondetChoice("encoding", 5)]
 		timeout = nondetString("timeout", bound("timeoutLen", 3, 3))
 		body = []byte{0x41}
 		if !unaryConnect {
@@ -241,7 +242,7 @@ func HarnessC07Request() {
 		}
 	}
 	switch {
-	case enc == "zz":
+	case enc == "zz" || enc == "Gzip":
 		check(code == int(CodeUnimplemented), "unknown request compression is rejected as unimplemented")
 		check(userCalls == 0, "user code does not run when the request compression is unknown")
 	case !timeoutValid:
